@@ -28,6 +28,12 @@
 (*                   macros containing the dof - of the regular ones with skip_singular, where a singular macro is  *)
 (*                   left out and a dof without regular macro gets a unit row);                                     *)
 (*                   x := fc(V f); further steps: x += fc(V fd(f - M x))   (fc / fd = correction / defect filter)   *)
+(*                   The macros are deduced from the matrix (kinds "ama", "amas") or PUSHED by the user (kinds "amap",  *)
+(*                   "amaps": any sequence of macros (set of velocity nodes, set of pressure dofs) covering every    *)
+(*                   dof): singular macros (skip_singular) before, between and after regular macros whose local      *)
+(*                   matrices have structurally empty entries.                                                       *)
+(* Filters: unit filter on velocity nodes; on the pressure the chain  unit ; mean(prim, dual)  with non-proportional   *)
+(* primal and dual vector, for which fc (x - prim (dual.x)/(prim.dual)) and fd (x - dual (prim.x)/(prim.dual)) differ.  *)
 (* The factorisations are computed at init_numeric; the defect of the multiplicative sweep and of the later          *)
 (* additive iterations / AmaVanka steps reads the matrix at apply.  Between a value update and the next             *)
 (* init_numeric the property leaves the result open; the generated histories do not apply there.                     *)
@@ -42,35 +48,41 @@ EXTENDS DyadicLA, Json, TLC
 
 CONSTANTS Layouts,        \* subset of {"csr", "bcsr", "pdiag", "pfull"}
           NVs, NPs,       \* numbers of velocity nodes / pressure dofs
-          Kinds,          \* subset of {"ndm","nfm","bdm","bfm","nda","nfa","bda","bfa","ama","amas"} (amas: skip_singular)
+          Kinds,          \* subset of {"ndm","nfm","bdm","bfm","nda","nfa","bda","bfa","ama","amas","amap","amaps"} (amas: skip_singular;
+                          \* amap / amaps: AmaVanka without / with skip_singular on user-pushed macros)
           Oms,            \* subset of 1..3: omega = 1, 1/2, 3/2
           Iters,          \* set of iteration / step counts
-          FiltSel,        \* subset of {"none", "v", "p", "vp"}
+          FiltSel,        \* subset of {"none", "v", "p", "vp", "m", "vm", "pm"}  (v: unit filter on a velocity node, p: on a pressure dof,
+                          \* m: mean filter on the pressure, pm: the chain unit ; mean on the pressure)
           Pals,           \* value palettes 1..3
           APat,           \* "diag": A couples no two nodes; "all": every off-diagonal node pattern; "coupled": every non-empty one
           MinNz, MaxNz,   \* bounds on the number of pattern entries of B plus D
+          MacLens,        \* pushed macros: set of numbers of macros (lengths of the macro sequences); {} for the deduced kinds
           ZDP             \* FALSE: the exact domain described above.  TRUE: ONLY systems with a local matrix that is regular but on
                           \* which the diagonal pivoting of Math::invert_matrix meets a zero pivot (known finding
                           \* C08x-invert-matrix-diagonal-pivoting); its inverse is computed with row pivoting (DyadicLA!InverseRP)
 
-VARIABLES lay, n, m, PA, PB, PD, pal, cls, kind, om, iters, fsel,    \* the chosen input (constant along a behaviour)
+VARIABLES lay, n, m, PA, PB, PD, pal, cls, mac, kind, om, iters, fsel,    \* the chosen input (constant along a behaviour)
           idx, nvs, cnt, mats, fac, ama, tests,                 \* functions of the input (block structure, factorisations)
           pc, it, k, X, Tt, lastr                               \* the sweep
-input == <<lay, n, m, PA, PB, PD, pal, cls, kind, om, iters, fsel>>
+input == <<lay, n, m, PA, PB, PD, pal, cls, mac, kind, om, iters, fsel>>
 derived == <<idx, nvs, cnt, mats, fac, ama, tests>>
 vars == <<input, derived, pc, it, k, X, Tt, lastr>>
 
-IsBlock(kd) == kd \in {"bdm", "bfm", "bda", "bfa", "ama", "amas"}
-IsFull(kd)  == kd \in {"nfm", "bfm", "nfa", "bfa", "ama", "amas"}
+IsBlock(kd) == kd \in {"bdm", "bfm", "bda", "bfa", "ama", "amas", "amap", "amaps"}
+IsFull(kd)  == kd \in {"nfm", "bfm", "nfa", "bfa", "ama", "amas", "amap", "amaps"}
 IsAdd(kd)   == kd \in {"nda", "nfa", "bda", "bfa"}
-IsAma(kd)   == kd \in {"ama", "amas"}
+IsAma(kd)   == kd \in {"ama", "amas", "amap", "amaps"}
+IsPushed(kd) == kd \in {"amap", "amaps"}
 Omega(o) == <<One, H(1, 1), H(3, 1)>>[o]
-\* block structure and factorisation depend on the kind only through its class <<family, block?, full?>>; Init chooses the class
-\* first and the kind after the (expensive) domain test
-ClassOf(kd) == <<IF kd \in {"ama", "amas"} THEN kd ELSE "vanka", IsBlock(kd), IsFull(kd)>>
+\* block structure and factorisation depend on the kind only through its class <<family, block?, full?, pushed macros?>>; Init
+\* chooses the class first and the kind after the (expensive) domain test.  family: "vanka", "ama" (every macro is used),
+\* "amas" (skip_singular: singular macros are left out)
+ClassOf(kd) == <<IF kd \in {"ama", "amap"} THEN "ama" ELSE IF kd \in {"amas", "amaps"} THEN "amas" ELSE "vanka", IsBlock(kd), IsFull(kd), IsPushed(kd)>>
 BlockC == cls[2]
 FullC == cls[3]
 AmaC == cls[1] # "vanka"
+PushedC == cls[4]
 
 \* ---- numbering -------------------------------------------------------------------------------------------------
 DimOf(ly) == IF ly = "csr" THEN 1 ELSE 2
@@ -133,6 +145,12 @@ VNodes(P) == {j \in 1..n : \E q \in P : <<q, j>> \in PD}
 \* global flat indices of a block with pressure dofs P: velocity (all components of its nodes) in increasing order, then pressure
 IdxOfP(P) == SetSeq({i \in 1..NV : NodeOf(i) \in VNodes(P)}) \o SetSeq({NV + q : q \in P})
 NvOfP(P) == Cardinality({i \in 1..NV : NodeOf(i) \in VNodes(P)})
+\* pushed macros: a macro is a pair <<set of velocity nodes, set of pressure dofs>>, not both empty; a macro sequence of length L
+\* consists of L different macros (their order matters: it is the order of the numeric factorisation)
+MacroU == {mc \in (SUBSET (1..n)) \X (SUBSET (1..m)) : mc[1] # {} \/ mc[2] # {}}
+MacroSeqs == UNION {{sq \in [1..L -> MacroU] : \A a, b \in 1..L : a # b => sq[a] # sq[b]} : L \in MacLens}
+IdxOfMacro(mc) == SetSeq({i \in 1..NV : NodeOf(i) \in mc[1]}) \o SetSeq({NV + q : q \in mc[2]})
+NvOfMacro(mc) == Cardinality({i \in 1..NV : NodeOf(i) \in mc[1]})
 InIdx(ix, i) == \E a \in 1..Len(ix) : ix[a] = i
 PosIn(ix, i) == CHOOSE a \in 1..Len(ix) : ix[a] = i
 
@@ -179,11 +197,22 @@ LocalSolve(F, b, r) ==
            v == Vec(nv, LAMBDA a : FMul(fb.ainv[a], FSub(r[a], FSumTo(LAMBDA j : FMul(fb.bl[a][j], p[j]), np))))
        IN v \o p
 
-\* ---- filters: UnitFilter on whole velocity nodes / on pressure dofs ----------------------------------------------------
-FVNodes == IF fsel \in {"v", "vp"} THEN {n} ELSE {}
-FPDofs == IF fsel \in {"p", "vp"} THEN {1} ELSE {}
+\* ---- filters: UnitFilter on whole velocity nodes; on the pressure the chain  UnitFilter ; MeanFilter -------------------------
+FVNodes == IF fsel \in {"v", "vp", "vm"} THEN {n} ELSE {}
+FPDofs == IF fsel \in {"p", "vp", "pm"} THEN {1} ELSE {}
+HasMean == fsel \in {"m", "vm", "pm"}
+\* primal vector (1, 1, 1), dual vector (3, -1, 2): not proportional for m >= 2, <prim, dual> = 3, 2, 4 for m = 1, 2, 3
+MeanP == Vec(m, LAMBDA q : One)
+MeanD == Vec(m, LAMBDA q : <<D(3), D(-1), D(2)>>[q])
+MeanVol == DDot(MeanP, MeanD)
 Filtered(i) == IF i <= NV THEN NodeOf(i) \in FVNodes ELSE (i - NV) \in FPDofs
-Filt(x) == Vec(NN, LAMBDA i : IF Filtered(i) THEN Zero ELSE x[i])
+UnitFilt(x) == Vec(NN, LAMBDA i : IF Filtered(i) THEN Zero ELSE x[i])
+\* code (MeanFilter): cor  x.axpy(prim, -x.dot(dual) / volume),  def  x.axpy(dual, -x.dot(prim) / volume)
+MeanStep(x, a, b) ==      \* pressure part  p - a (b.p) / volume
+  LET xp == SubVec(x, NV + 1, m)  f == Div(Neg(DDot(xp, b)), MeanVol)
+  IN Vec(NN, LAMBDA i : IF i <= NV THEN x[i] ELSE FAdd(x[i], FMul(f, a[i - NV])))
+FiltC(x) == IF HasMean THEN MeanStep(UnitFilt(x), MeanP, MeanD) ELSE UnitFilt(x)      \* correction filter
+FiltD(x) == IF HasMean THEN MeanStep(UnitFilt(x), MeanD, MeanP) ELSE UnitFilt(x)      \* defect filter
 
 \* ---- test right-hand sides --------------------------------------------------------------------------------------------
 GenV(len) == Vec(len, LAMBDA i : <<D(1), D(-2), D(3), H(1, 1), D(-1), D(2), D(-3), H(1, 2)>>[i])
@@ -232,12 +261,17 @@ Init ==
   /\ PB \in SUBSET ((1..n) \X (1..m)) /\ PD \in SUBSET ((1..m) \X (1..n))
   /\ Cardinality(PB) + Cardinality(PD) >= MinNz /\ Cardinality(PB) + Cardinality(PD) <= MaxNz
   /\ pal \in Pals /\ cls \in {ClassOf(kd) : kd \in Kinds}
-  /\ (AmaC => lay = "bcsr")
+  /\ (AmaC => lay \in {"bcsr", "csr"}) /\ (AmaC /\ ~PushedC => lay = "bcsr")      \* macros can be deduced for the BCSR layout only
+  \* (gathering a macro from a BCSR block without any stored entry is outside the API: SparseMatrixBCSR::val() of an empty matrix)
+  /\ (PushedC /\ lay = "bcsr" => PB # {} /\ PD # {})
+  /\ mac \in (IF PushedC THEN MacroSeqs ELSE {<<>>})
+  \* (likewise the velocity-pressure blocks of the assembled Vanka matrix: some macro couples a velocity node with a pressure dof)
+  /\ (PushedC /\ lay = "bcsr" => \E b \in 1..Len(mac) : mac[b][1] # {} /\ mac[b][2] # {})
   \* Vanka reads the row pointer arrays of D (and of B for the block variants) in init_symbolic, and asserts non-empty BCSR
   \* matrices: D (and B) must have at least one stored entry
   /\ (~AmaC => PD # {} /\ (IF PB = {} THEN ~BlockC /\ lay # "bcsr" ELSE TRUE))
-  /\ idx = Vec(Len(PSets), LAMBDA b : IdxOfP(PSets[b]))
-  /\ nvs = Vec(Len(PSets), LAMBDA b : NvOfP(PSets[b]))
+  /\ idx = IF PushedC THEN Vec(Len(mac), LAMBDA b : IdxOfMacro(mac[b])) ELSE Vec(Len(PSets), LAMBDA b : IdxOfP(PSets[b]))
+  /\ nvs = IF PushedC THEN Vec(Len(mac), LAMBDA b : NvOfMacro(mac[b])) ELSE Vec(Len(PSets), LAMBDA b : NvOfP(PSets[b]))
   /\ cnt = Vec(NN, LAMBDA i : Cardinality({b \in 1..Len(idx) : InIdx(idx[b], i)}))
   /\ (AmaC => \A i \in 1..NN : cnt[i] >= 1)           \* AmaVanka asserts that every dof lies in a macro
   /\ mats = <<MOf(1), MOf(2)>>
@@ -251,6 +285,7 @@ Init ==
   \* additive variants with a dof in no block (see known finding C08x-vanka-additive-uncovered-dof-nan): only a thin family
   /\ (IsAdd(kind) /\ (\E i \in 1..NN : cnt[i] = 0) => PA = {} /\ pal = (CHOOSE o \in Pals : TRUE) /\ Cardinality(PB) + Cardinality(PD) = MinNz)
   /\ om \in Oms /\ iters \in Iters /\ fsel \in FiltSel
+  /\ (HasMean => IsPow2(MeanVol))                    \* the mean filter divides by <prim, dual>: m >= 2
   \* the cases in which init_numeric must throw need no sweep: one per pattern of B and D, for the multiplicative kinds
   /\ (pc = "throws" => PA = {} /\ pal = (CHOOSE o \in Pals : TRUE) /\ ~IsAdd(kind))
   /\ (pc = "throws" => om = CHOOSE o \in Oms : TRUE)  /\ (pc = "throws" => iters = CHOOSE o \in Iters : TRUE) /\ (pc = "throws" => fsel = CHOOSE o \in FiltSel : TRUE)
@@ -279,9 +314,9 @@ EndIter ==
   /\ pc = "sweep" /\ ~AmaC /\ k = NB + 1
   /\ X' = Tab(LAMBDA cb, t :
              IF IsAdd(kind)
-             THEN Filt(Vec(NN, LAMBDA i : IF cnt[i] = 0 THEN X[cb][t][i]
-                                            ELSE FAdd(X[cb][t][i], FMul(Tt[cb][t][i], Div(One, D(cnt[i]))))))
-             ELSE Filt(X[cb][t]))
+             THEN FiltC(Vec(NN, LAMBDA i : IF cnt[i] = 0 THEN X[cb][t][i]
+                                             ELSE FAdd(X[cb][t][i], FMul(Tt[cb][t][i], Div(One, D(cnt[i]))))))
+             ELSE FiltC(X[cb][t]))
   /\ Tt' = ZeroTab /\ lastr' = <<>>
   /\ IF it < iters THEN it' = it + 1 /\ k' = 1 /\ pc' = pc ELSE pc' = "done" /\ UNCHANGED <<it, k>>
   /\ UNCHANGED <<input, derived>>
@@ -291,8 +326,8 @@ AmaStep ==
   /\ pc = "sweep" /\ AmaC
   /\ X' = Tab(LAMBDA cb, t :
              LET V == ama[Combos[cb][1]] IN
-             IF it = 1 THEN Filt(RMatVec(NN, NN, V, tests[t]))
-             ELSE RVAdd(X[cb][t], Filt(RMatVec(NN, NN, V, Filt(Residual(mats[Combos[cb][2]], tests[t], X[cb][t]))))))
+             IF it = 1 THEN FiltC(RMatVec(NN, NN, V, tests[t]))
+             ELSE RVAdd(X[cb][t], FiltC(RMatVec(NN, NN, V, FiltD(Residual(mats[Combos[cb][2]], tests[t], X[cb][t]))))))
   /\ IF it < iters THEN it' = it + 1 /\ pc' = pc ELSE pc' = "done" /\ it' = it
   /\ UNCHANGED <<input, derived, k, Tt, lastr>>
 
@@ -322,14 +357,20 @@ WholeSystemLaw == pc = "done" /\ FullC /\ NB = 1 /\ Len(idx[1]) = NN /\ om = 1 /
    \A cb \in {1, 2} : \A t \in 1..NT : RMatVec(NN, NN, mats[cb], X[cb][t]) = tests[t]
 Linearity == pc = "done" => \A cb \in 1..NC : X[cb][NT] = RVSub(RVScale(D(2), X[cb][NT - 1]), X[cb][1])
 ResultsExact == pc = "done" => \A cb \in 1..NC : \A t \in 1..NT : VecExact(X[cb][t])
-FilterLaw == pc = "done" => \A cb \in 1..NC : \A t \in 1..NT : \A i \in 1..NN : Filtered(i) => X[cb][t][i] = Zero
+\* filtered velocity dofs vanish; the pressure part has dual mean zero after a mean filter, vanishing unit-filtered dofs otherwise
+FilterLaw == pc = "done" => \A cb \in 1..NC : \A t \in 1..NT :
+   /\ \A i \in 1..NN : Filtered(i) /\ (i <= NV \/ ~HasMean) => X[cb][t][i] = Zero
+   /\ (HasMean => DDot(SubVec(X[cb][t], NV + 1, m), MeanD) = Zero)
+\* the two projections of the mean filter differ and are idempotent
+MeanFilterLaw == pc = "done" /\ HasMean /\ FPDofs = {} /\ FVNodes = {} =>
+   LET g == GenV(NN)  c == FiltC(g)  e == FiltD(g) IN c # e /\ FiltC(c) = c /\ FiltD(e) = e
 \* AmaVanka (one step, no skipped macro) is Vanka block_full_add: x = filter(sum_k omega P_k^T L_k^-1 P_k f / count)
 AmaIsBlockFullAdd == pc = "done" /\ AmaC /\ iters = 1 /\ (\A i \in 1..NN : cnt[i] \in {1, 2, 4}) => \A c \in {1, 2} :
    (\A b \in 1..NB : fac[c][b].st = "ok") => \A t \in 1..NT :
       LET RECURSIVE Acc(_)
           Acc(b) == IF b = 0 THEN ZeroVec(NN) ELSE ScatterAdd(Acc(b - 1), idx[b], Omega(om), LocalSolve(fac[c], b, Gather(tests[t], idx[b])))
           tt == Acc(NB)
-      IN X[c][t] = Filt(Vec(NN, LAMBDA i : Mul(tt[i], Div(One, D(cnt[i])))))
+      IN X[c][t] = FiltC(Vec(NN, LAMBDA i : Mul(tt[i], Div(One, D(cnt[i])))))
 
 \* ---- generator -----------------------------------------------------------------------------------------------------------------
 \* canonical life-cycle history (init_numeric after every value update; repeated apply; done_symbolic and a second
@@ -348,6 +389,7 @@ BlocksOut == [b \in 1..NB |-> [idx |-> idx[b], nv |-> nvs[b]]]
 Emit == pc \in {"done", "throws"} =>
   PrintT(ToJson([lay |-> lay, n |-> n, m |-> m, dim |-> dim, kind |-> kind, om |-> Omega(om), iters |-> iters, fsel |-> fsel,
                  FV |-> SetSeq(FVNodes), FP |-> SetSeq(FPDofs), throws |-> (pc = "throws"), zdp |-> ZDP,
+                 mp |-> IF HasMean THEN MeanP ELSE <<>>, md |-> IF HasMean THEN MeanD ELSE <<>>, pushed |-> PushedC,
                  patA |-> MatOf(n, n, LAMBDA i, j : IF i = j \/ <<i, j>> \in PA THEN 1 ELSE 0),
                  patB |-> Pat01(n, m, PB), patD |-> Pat01(m, n, PD),
                  M1 |-> mats[1], M2 |-> mats[2], blocks |-> BlocksOut, count |-> cnt,
